@@ -6,7 +6,7 @@ From Coq Require Import NArith ZArith List Bool Permutation.
 From ZV.Gen Require Import Gen_Train.
 From ZV.Train Require Import CoverParams ZdictModel BestModel CoverProofs ZdictProofs BestProofs.
 From ZV.Train Require Import SegmentModel SegmentProofs GroupModel GroupProofs.
-From ZV.Train Require Import LimitsModel LimitsProofs.
+From ZV.Train Require Import LimitsModel LimitsProofs MapModel MapProofs.
 Import ListNotations.
 Local Open Scope N_scope.
 
@@ -459,6 +459,61 @@ Theorem offsets_table_pinned_refuted :
   offsets_alloc true (U32M - 1) = 34359738368.
 Proof. exact offsets_alloc_pinned_refuted. Qed.
 Print Assumptions offsets_table_pinned_refuted.
+
+(* ---- both optimisers, notificationLevel >= 2: the divisor kIterations of the progress display
+        "(iteration * 100) / kIterations" is at least 1 and does not wrap, for every (d, k, steps) that passes the entry checks *)
+Theorem opt_iterations_positive : forall fuel d k steps g,
+  opt_grid true fuel d k steps = Some (Some g) -> 1 <= g_iterations g <= 3902.
+Proof. exact LimitsProofs.opt_iterations_positive. Qed.
+Print Assumptions opt_iterations_positive.
+
+(* ---- the COVER_map implementation (Train/MapModel.v): open addressing, linear probing, backward-shift deletion.
+        (a) for EVERY table contents, key and sizeLog <= 32: the slot COVER_map_index / COVER_map_at return lies inside the table,
+            COVER_map_at keeps the table's size; the hash is < 2^sizeLog; the bit-operation form used by the model is
+            SegmentModel.map_hash;
+        (b) BOUNDED (the bound is in the statement): on a table of 8 slots with the keys 8, 16, 21 (home = last slot, probes wrap
+            around), 0, 5 (home = slot 0) and on a table of 4 slots with the keys 3, 8, 11 (last slot), 0: for EVERY sequence of
+            at most 5 (resp. 6) of the operations COVER_selectSegment performs (add one occurrence of a key / remove one, deleting
+            the key when its counter reaches 0), after every operation the value seen, the counter of every key of the universe
+            (looked up without inserting) and the number of occupied slots equal those of the abstract "counter per key" contents
+            that SegmentModel.v uses, and no probing loop runs longer than the table;
+        (c) a full table makes COVER_map_index loop forever (the reason for map_init_ok: table >= 2 x the keys of a window) *)
+Theorem cover_map_index_inside : forall m key r, cm_log m <= 32 -> cmap_index m key = Some r -> r < cm_size m.
+Proof. exact cmap_index_lt. Qed.
+Print Assumptions cover_map_index_inside.
+
+Theorem cover_map_at_inside : forall m key m1 i, cm_log m <= 32 -> cmap_at m key = Some (m1, i) ->
+  i < cm_size m /\ cm_log m1 = cm_log m /\ length (cm_slots m1) = length (cm_slots m).
+Proof. exact cmap_at_lt. Qed.
+Print Assumptions cover_map_at_inside.
+
+Theorem cover_map_hash_bits : forall sizeLog key,
+  hashf sizeLog key = map_hash sizeLog key /\ (sizeLog <= 32 -> hashf sizeLog key < 2 ^ sizeLog).
+Proof. exact (fun sl k => conj (hashf_map_hash sl k) (hashf_lt sl k)). Qed.
+Print Assumptions cover_map_hash_bits.
+
+Theorem cover_map_agrees_bounded_8slots : forall ops,
+  (length ops <= 5)%nat -> (forall o, In o ops -> In o (all_ops univ3)) ->
+  agree_run univ3 7 (cmap_clear 3, []) ops = true.
+Proof. exact cover_map_agrees_3. Qed.
+Print Assumptions cover_map_agrees_bounded_8slots.
+
+Theorem cover_map_agrees_bounded_4slots : forall ops,
+  (length ops <= 6)%nat -> (forall o, In o ops -> In o (all_ops univ2)) ->
+  agree_run univ2 3 (cmap_clear 2, []) ops = true.
+Proof. exact cover_map_agrees_2. Qed.
+Print Assumptions cover_map_agrees_bounded_4slots.
+
+Theorem cover_map_full_never_ends :
+  cmap_run (cmap_clear 2) [OpAdd 3; OpAdd 8; OpAdd 11; OpAdd 0; OpAdd 4] = None.
+Proof. exact full_map_probe_never_ends. Qed.
+Print Assumptions cover_map_full_never_ends.
+
+Example cover_map_example :
+  map (hashf 3) univ3 = [7; 7; 7; 0; 0] /\
+  (exists m, cmap_run (cmap_clear 3) [OpAdd 8; OpAdd 0; OpAdd 16; OpDel 8] = Some (m, [1; 1; 1; 0]) /\
+             fst (slot_at m 7) = 16 /\ fst (slot_at m 0) = 0 /\ snd (slot_at m 1) = MAP_EMPTY).
+Proof. split; [vm_compute; reflexivity|]. eexists. vm_compute. repeat split; reflexivity. Qed.
 
 Example legacy_plan_example :
   legacy_plan true [6400; 6400; t_ZDICT_MAX_SAMPLES_SIZE] = LgPlan 12800 12800 2 /\
